@@ -535,6 +535,32 @@ def r6_loader_order(ctx, rule):
         elif not bad:
             ctx.ok(rule, qual, '%s is filled by append only, in file order' % tgt, {'appends': appends})
     ctx.floor(rule, GIO, n, 2, 'append sites')
+    # group lists are built only by the order-preserving loader: no post-processing in _load_terminals / load_grammar
+    for qual in (GIO + '_load_terminals', GIO + 'load_grammar', GIO + '_load_from_multiple_files'):
+        fn = ctx.fn(qual)
+        g = params(fn)[1] if qual.endswith('_load_terminals') else ('grammar')
+        probs = []
+        for c in calls_in(fn):
+            d = call_name(c)
+            if isinstance(c.func, ast.Attribute) and c.func.attr in ('append', 'insert', 'sort', 'reverse', 'extend', 'pop') \
+                    and U(c.func.value).startswith(g + '['):
+                probs.append(U(c)[:70])
+            if d in ('sorted', 'reversed') and c.args and (U(c.args[0]).startswith(g + '[') or True) and qual.endswith('_load_terminals'):
+                probs.append(U(c)[:70])
+        for nn in walk_local(fn):
+            if isinstance(nn, ast.Assign) and isinstance(nn.targets[0], ast.Subscript) and U(nn.targets[0].value) == g:
+                v = nn.value
+                okv = (isinstance(v, ast.List) and (not v.elts or (len(v.elts) == 1 and isinstance(v.elts[0], ast.Name))))
+                if not okv:
+                    probs.append(U(nn)[:70])
+        if probs:
+            for pr in probs:
+                ctx.bad(rule, qual, 'group list post-processed: ' + pr,
+                        'group lists must keep the file order (descending probability); index 0 is assumed to be the most '
+                        'probable group and index+1 never more probable - rebuilding or re-sorting a list after loading (e.g. by '
+                        'level number) breaks that', None, fn)
+        else:
+            ctx.ok(rule, qual, 'grammar lists are only filled by _load_from_file (file order) or the all-lower template')
 
 
 # ---------------------------------------------------------------------------------------------
